@@ -370,3 +370,12 @@ def truth_implies(body, local, depth=0, _seen=None):
             cur = here
         res = cur if res is None else (res & cur)
     return res
+
+
+def on_some_arm(c):
+    """the condition says: the Option / Result discriminant is 1 (Some / Err), in match form or as the fall-through of a `let .. else`"""
+    return c.is_discr and ((not c.negated and c.values == ["1"]) or (c.negated and c.values == ["0"]))
+
+
+def on_none_arm(c):
+    return c.is_discr and ((not c.negated and c.values == ["0"]) or (c.negated and c.values == ["1"]))
